@@ -942,8 +942,8 @@ func compareLogicXEQ(left r.Element, right r.Element) (bool, error) {
 			if len(vla) != len(vra) {
 				return false, nil
 			}
-			// cmp each item
-			for idx := range vla {
+			// cmp each item (in key order, so that the outcome never depends on map iteration)
+			for _, idx := range vl.GetKeyOrder() {
 				// ensure the key exists on vr
 				vrr, ok := vra[idx]
 				if !ok {
@@ -953,7 +953,10 @@ func compareLogicXEQ(left r.Element, right r.Element) (bool, error) {
 				if err != nil {
 					return false, err
 				}
-				return cmpVal, nil
+				// break the loop only when cmpVal = false
+				if !cmpVal {
+					return false, nil
+				}
 			}
 			return true, nil
 		}
